@@ -3,7 +3,7 @@
    embedding lemmas; the induction over the token tree and the Markdown/RST renderers are covered by the
    oracle only. *)
 From Coq Require Import ZArith List Bool Lia.
-From Verif Require Import PyStr Util UtilGen Tmpl HtmlRender TmplCheck TmplBalance TmplGen.
+From Verif Require Import PyStr Util UtilGen UtilProofs Tmpl HtmlRender TmplCheck TmplBalance TmplGen C18 Inline Block Doc HtmlDoc HtmlDocProofs HtmlWellNested Entry.
 Import ListNotations.
 Open Scope Z_scope.
 
@@ -67,5 +67,32 @@ Theorem C06_pieces_keep_their_order : forall E ops l1 s1 l2 s2 l3 vals,
   exists a b c, fill E ops (l1 ++ s1 :: l2 ++ s2 :: l3) vals = a ++ fill_seg E ops vals s1 ++ b ++ fill_seg E ops vals s2 ++ c.
 Proof. exact fill_order. Qed.
 
+(* ---- the induction over the token tree, on the model of the whole core conversion (Model/Doc.v + HtmlDoc.v; tied to
+   create_markdown(escape=True) by the HTML correspondence run of this check) ---- *)
+(* For EVERY document the HTML output is a string of the balanced-tag grammar [html false]: text without < > and
+   double-quote; elements <name attrs> body </name> with body again in the grammar; void elements <name attrs />;
+   attribute values free of the three characters; and p, h1..h6, pre, a, em, strong, code contain phrasing elements only
+   (no block element inside a paragraph, heading or link). *)
+Lemma C06_escape_free : forall s, special_free (run_escape escape_ops true s).
+Proof. intros s. exact (proj1 (C18_escape_no_special s)). Qed.
+
+Theorem C06_whole_document_is_well_nested : forall hw s out, core_html true hw s = Ok out -> html false out.
+Proof.
+  intros hw s out H. unfold core_html, bind in H. destruct (core_doc_parse hw s) as [ast| |]; try discriminate.
+  inversion H; subst out.
+  apply (doc_html (html_env true) escape_ops eq_refl C06_escape_free).
+  - intros u. exact (safe_url_free escape_ops harmful_protocols good_data_protocols C06_escape_free u).
+  - intros t. exact (C18_safe_entity_no_special t).
+Qed.
+
+(* the grammar is not trivially inhabited: a lone angle bracket is not in it, nor a tag with an unterminated attribute value *)
+Example C06_grammar_rejects : ~ html false [60] /\ ~ html false [60; 97; 32; 98; 61; 34; 62].
+Proof. split; [apply grammar_rejects_lt|apply grammar_rejects_open_attr]. Qed.
+
+(* and every string of the grammar is read back to character data by the context reader of C02 *)
+Theorem C06_well_nested_output_is_a_fragment : forall hw s out, core_html true hw s = Ok out -> hrun Data out = Data.
+Proof. intros hw s out H. exact (html_returns_to_data false out (C06_whole_document_is_well_nested hw s out H)). Qed.
+
 Print Assumptions C06_templates_balanced.
 Print Assumptions C06_leaves_escaped_once.
+Print Assumptions C06_whole_document_is_well_nested.
